@@ -353,6 +353,9 @@ def run_fault(pid, tier, seed, replay):
 
 
 def run(pid, tier, seed, replay):
+    if pid == "C25":
+        import codeccheck
+        return codeccheck.run(pid, tier, seed, replay)
     if pid == "C22":
         return run_fault(pid, tier, seed, replay)
     if pid in PAR:
